@@ -1,7 +1,9 @@
 package zv
 
 import (
+	"go/constant"
 	"go/token"
+	"go/types"
 	"sort"
 	"strconv"
 	"strings"
@@ -39,7 +41,9 @@ type ConcState struct {
 	// fmem: integer/boolean values stored into struct fields on this path, keyed by the address rendered in the
 	// root function's terms; forgotten at every call into zap code that is not explored inline
 	fmem map[string]int64
-	cfg  *ConcCfg
+	// iters: how often each loop header was entered on this path (MaxIter > 0)
+	iters map[*ssa.BasicBlock]int
+	cfg   *ConcCfg
 }
 
 // Step returns the value v stands for on this path (nil: v itself).
@@ -68,12 +72,20 @@ func bind(ns, st *ConcState, dst, src ssa.Value) {
 
 // plainLocal: an Alloc that is only ever stored to and loaded from as a whole
 // in its own function (no field/element addresses, no capture, not passed on).
-func plainLocal(a *ssa.Alloc) bool {
+func plainLocal(a *ssa.Alloc) bool { return localCell(a, false) }
+
+// localCell: like plainLocal, but with captured=true the variable may also be captured by closures (which then access
+// it through a free variable); sound only while every such closure is explored inline.
+func localCell(a *ssa.Alloc, captured bool) bool {
 	if a.Referrers() == nil {
 		return false
 	}
 	for _, r := range *a.Referrers() {
 		switch x := r.(type) {
+		case *ssa.MakeClosure:
+			if !captured {
+				return false
+			}
 		case *ssa.Store:
 			if x.Addr != ssa.Value(a) {
 				return false
@@ -102,6 +114,12 @@ func (st *ConcState) clone() *ConcState {
 		n.tup = make(map[*ssa.Call][]ssa.Value, len(st.tup))
 		for k, v := range st.tup {
 			n.tup[k] = v
+		}
+	}
+	if len(st.iters) > 0 {
+		n.iters = make(map[*ssa.BasicBlock]int, len(st.iters))
+		for k, v := range st.iters {
+			n.iters[k] = v
 		}
 	}
 	if len(st.fmem) > 0 {
@@ -260,6 +278,14 @@ type ConcCfg struct {
 	// Unroll keeps loop-carried values whose integer value is evident on the path (constant-bounded counting loops are
 	// then walked iteration by iteration); all other loop-carried values are forgotten at the loop head.
 	Unroll bool
+	// MaxIter > 0: loops are walked iteration by iteration with every loop-carried value kept as it is on the path
+	// (nothing is forgotten at loop heads); a path is abandoned - silently - when it would enter the same loop a
+	// (MaxIter+1)th time. The number of abandoned paths is reported through Cut.
+	MaxIter int
+	Cut     *int
+	// IterClosures: a call that is not explored inline and receives a function literal (e.g. record.Attrs(func…))
+	// is modelled as invoking that literal 0..MaxIter times in sequence (stopping early when it returns false).
+	IterClosures bool
 }
 
 func vkey(v ssa.Value) string {
@@ -273,6 +299,9 @@ type concFrame struct {
 	blk  *ssa.BasicBlock
 	idx  int
 	call *ssa.Call
+	// iter: the frame of a function literal invoked repeatedly by call's callee; left = further invocations allowed
+	iter *ssa.MakeClosure
+	left int
 }
 
 // ConcPaths explores fn from its entry and returns the distinct event
@@ -326,6 +355,7 @@ func ConcPaths(fn *ssa.Function, cfg ConcCfg) (seqs []string, truncated bool) {
 		return sb.String()
 	}
 	var run func(blk *ssa.BasicBlock, idx int, ev []string, stack []concFrame, st *ConcState)
+	var iterate func(fr concFrame, ev []string, stack []concFrame, st *ConcState)
 	enter := func(from, to *ssa.BasicBlock, ev []string, stack []concFrame, st *ConcState) {
 		pi := -1
 		for i, p := range to.Preds {
@@ -336,6 +366,21 @@ func ConcPaths(fn *ssa.Function, cfg ConcCfg) (seqs []string, truncated bool) {
 		loopHead := LoopHeader(to) == to
 		ns := st
 		cloned := false
+		if loopHead && cfg.MaxIter > 0 {
+			if st.iters[to] > cfg.MaxIter {
+				if cfg.Cut != nil {
+					*cfg.Cut++
+				}
+				return
+			}
+			ns = st.clone()
+			cloned = true
+			if ns.iters == nil {
+				ns.iters = map[*ssa.BasicBlock]int{}
+			}
+			ns.iters[to]++
+			loopHead = false // keep loop-carried values
+		}
 		for _, in := range to.Instrs {
 			ph, ok := in.(*ssa.Phi)
 			if !ok {
@@ -418,6 +463,28 @@ func ConcPaths(fn *ssa.Function, cfg ConcCfg) (seqs []string, truncated bool) {
 		}
 		return ns
 	}
+	// iterate: either stop invoking the function literal of fr (continue after the call), or invoke it once more
+	iterate = func(fr concFrame, ev []string, stack []concFrame, st *ConcState) {
+		run(fr.blk, fr.idx, ev, stack, st)
+		if fr.left <= 0 {
+			if cfg.Cut != nil {
+				*cfg.Cut++
+			}
+			return
+		}
+		f := fr.iter.Fn.(*ssa.Function)
+		ns := st.clone()
+		for _, p := range f.Params {
+			bind(ns, st, p, nil)
+		}
+		for bi, b := range fr.iter.Bindings {
+			if bi < len(f.FreeVars) {
+				bind(ns, st, f.FreeVars[bi], b)
+			}
+		}
+		nstack := append(append([]concFrame{}, stack...), fr)
+		run(f.Blocks[0], 0, ev, nstack, ns)
+	}
 	run = func(blk *ssa.BasicBlock, idx int, ev []string, stack []concFrame, st *ConcState) {
 		states++
 		if states > cfg.MaxStates {
@@ -449,10 +516,25 @@ func ConcPaths(fn *ssa.Function, cfg ConcCfg) (seqs []string, truncated bool) {
 				}
 			}
 			switch x := in.(type) {
+			case *ssa.Alloc:
+				// a fresh variable holds its zero value
+				if localCell(x, cfg.IterClosures) {
+					if z := intConst(0, deref(x.Type())); z != nil {
+						st = st.clone()
+						st.mem[x] = z
+					}
+				}
 			case *ssa.Store:
-				if a, ok := x.Addr.(*ssa.Alloc); ok && plainLocal(a) {
+				if a := cellOf(st, x.Addr); a != nil {
 					st = st.clone()
-					st.mem[a] = x.Val
+					// remember what the stored register stands for NOW (it may be rebound in a later iteration)
+					if kv, ok := st.eval(x.Val, 0); ok && intConst(kv, x.Val.Type()) != nil {
+						st.mem[a] = intConst(kv, x.Val.Type())
+					} else if nx := st.alias[x.Val]; nx != nil && cfg.MaxIter > 0 {
+						st.mem[a] = nx
+					} else {
+						st.mem[a] = x.Val
+					}
 				} else if _, isFA := x.Addr.(*ssa.FieldAddr); isFA {
 					ad := st.Desc(x.Addr)
 					st = st.clone()
@@ -474,7 +556,7 @@ func ConcPaths(fn *ssa.Function, cfg ConcCfg) (seqs []string, truncated bool) {
 					}
 				}
 			case *ssa.UnOp:
-				if a, ok := x.X.(*ssa.Alloc); ok && x.Op == token.MUL && plainLocal(a) {
+				if a := cellOf(st, x.X); a != nil && x.Op == token.MUL {
 					if val, has := st.mem[a]; has {
 						ns := st.clone()
 						bind(ns, st, x, val)
@@ -488,6 +570,22 @@ func ConcPaths(fn *ssa.Function, cfg ConcCfg) (seqs []string, truncated bool) {
 				}
 			case *ssa.Call:
 				h := helperOf(x)
+				if h == nil && cfg.IterClosures && len(stack) < 4 {
+					// a function literal handed to a callee that is not explored: invoke it 0..MaxIter times
+					var mk *ssa.MakeClosure
+					for _, a := range x.Call.Args {
+						if m, ok := a.(*ssa.MakeClosure); ok {
+							if f, ok := m.Fn.(*ssa.Function); ok && len(f.Blocks) > 0 {
+								mk = m
+							}
+						}
+					}
+					if mk != nil {
+						fr := concFrame{blk: blk, idx: k + 1, call: x, iter: mk, left: cfg.MaxIter}
+						iterate(fr, ev, stack, st)
+						return
+					}
+				}
 				if h == nil || len(h.Blocks) == 0 || len(stack) >= 4 || cfg.Inline != nil && !cfg.Inline(h) {
 					if len(st.fmem) > 0 {
 						_, isBuiltin := x.Call.Value.(*ssa.Builtin)
@@ -515,10 +613,34 @@ func ConcPaths(fn *ssa.Function, cfg ConcCfg) (seqs []string, truncated bool) {
 					}
 					bind(ns, st, h.Params[ai], a)
 				}
+				if mk, ok := x.Call.Value.(*ssa.MakeClosure); ok {
+					for bi, b := range mk.Bindings {
+						if bi < len(h.FreeVars) {
+							bind(ns, st, h.FreeVars[bi], b)
+						}
+					}
+				}
 				nstack := append(append([]concFrame{}, stack...), concFrame{blk: blk, idx: k + 1, call: x})
 				run(h.Blocks[0], 0, ev, nstack, ns)
 				return
 			case *ssa.Return:
+				if len(stack) > 0 && stack[len(stack)-1].iter != nil {
+					top := stack[len(stack)-1]
+					rest := stack[:len(stack)-1]
+					goOn := true
+					if len(x.Results) == 1 {
+						if kv, ok := st.eval(x.Results[0], 0); ok && kv == 0 {
+							goOn = false // the literal asked its caller to stop
+						}
+					}
+					if goOn {
+						top.left--
+						iterate(top, ev, rest, st)
+					} else {
+						run(top.blk, top.idx, ev, rest, st)
+					}
+					return
+				}
 				if len(stack) > 0 {
 					top := stack[len(stack)-1]
 					ns := st.clone()
@@ -573,4 +695,49 @@ func ConcPaths(fn *ssa.Function, cfg ConcCfg) (seqs []string, truncated bool) {
 	}
 	sort.Strings(seqs)
 	return seqs, truncated
+}
+
+
+// cellOf resolves an address to the local variable cell it denotes on this path: a plain local, or - with
+// IterClosures - a local captured by function literals, reached directly or through a literal's free variable.
+func cellOf(st *ConcState, addr ssa.Value) *ssa.Alloc {
+	captured := st.cfg != nil && st.cfg.IterClosures
+	for k := 0; k < 6; k++ {
+		switch x := addr.(type) {
+		case *ssa.Alloc:
+			if localCell(x, captured) {
+				return x
+			}
+			return nil
+		case *ssa.FreeVar:
+			nx := st.alias[x]
+			if nx == nil || !captured {
+				return nil
+			}
+			addr = nx
+		default:
+			return nil
+		}
+	}
+	return nil
+}
+
+var intConsts = map[string]*ssa.Const{}
+
+// intConst makes a constant of type t (integers and booleans) so that a cell can remember an evaluated value.
+func intConst(k int64, t types.Type) ssa.Value {
+	key := t.String() + "#" + strconv.FormatInt(k, 10)
+	if c, ok := intConsts[key]; ok {
+		return c
+	}
+	var c *ssa.Const
+	if b, ok := types.Unalias(t).Underlying().(*types.Basic); ok && b.Info()&types.IsBoolean != 0 {
+		c = ssa.NewConst(constant.MakeBool(k != 0), t)
+	} else if ok && b.Info()&types.IsInteger != 0 {
+		c = ssa.NewConst(constant.MakeInt64(k), t)
+	} else {
+		return nil
+	}
+	intConsts[key] = c
+	return c
 }
